@@ -254,9 +254,9 @@ func (c *Ctx) Extra(k string, v any) {
 	c.mu.Unlock()
 }
 
-func (c *Ctx) Rule(s string)          { c.rule = s }
-func (c *Ctx) Assume(s ...string)     { c.assumptions = append(c.assumptions, s...) }
-func (c *Ctx) Exhaustive(v bool)      { c.exhaustive = &v }
+func (c *Ctx) Rule(s string)      { c.rule = s }
+func (c *Ctx) Assume(s ...string) { c.assumptions = append(c.assumptions, s...) }
+func (c *Ctx) Exhaustive(v bool)  { c.exhaustive = &v }
 func (c *Ctx) Inconclusive(s string) {
 	c.mu.Lock()
 	c.inconcl = append(c.inconcl, s)
